@@ -2,9 +2,10 @@
      case `s <rule ops>`   (rule built through the builder, formatted, parsed again)
      case `p <hex string>` (arbitrary string parsed, formatted, parsed again)
    model field: OK when the observation is what the model of Display / TryFrom<&str> predicts, else `want:<prediction>`;
-   spec field : OK when the observation satisfies the property — the string re-parses to an equal rule (EQ) and,
-                for `s` cases, the specification's reader (C22/Spec.v) reads the *implementation's* string back as
-                the pairs the rule denotes; `-` when the property says nothing (string or operation refused). *)
+   spec field : OK when the observation satisfies the property — the string re-parses to an equal rule (EQ) and
+                the specification's reader (C22/Spec.v) accepts the *implementation's* string (for `s` cases: reads it
+                back as exactly the pairs the rule denotes); `-` when the property says nothing (string or operation
+                refused). *)
 From ZV Require Import Base.Bytes Base.Res C21.Model C21.Run C22.Model C22.Spec.
 
 Definition semi : byte := ";"%byte.
@@ -67,7 +68,19 @@ Definition run_case (line : bytes) : outp :=
                                  | None => if lbeq obs (B "BERR") then dash else B "malformed_observation"
                                  end;
                        o_class := class_of22 r |}
-                | _ => {| o_model := verdict (B "BERR") obs; o_spec := dash; o_class := dash |}
+                | _ =>
+                    (* the model's builder refuses; if the implementation printed a string nevertheless, the string
+                       must at least be a valid rule for the specification and re-parse to an equal rule *)
+                    {| o_model := verdict (B "BERR") obs;
+                       o_spec := match split_obs obs with
+                                 | Some (str, x) =>
+                                     match spec_parse str with
+                                     | None => B "not_a_valid_rule"
+                                     | Some _ => if lbeq x (B "EQ") then B "OK" else B "reparse:" ++ x
+                                     end
+                                 | None => dash
+                                 end;
+                       o_class := dash |}
                 end
             end
           else if lbeq cmd (B "p") then
@@ -80,10 +93,15 @@ Definition run_case (line : bytes) : outp :=
                                        | Panic _ => B "PANIC"
                                        end) obs;
                    o_spec := match split_obs obs with
-                             | Some (_, x) => if lbeq x (B "EQ") then B "OK" else B "reparse:" ++ x
+                             | Some (str, x) =>
+                                 if negb (lbeq x (B "EQ")) then B "reparse:" ++ x
+                                 else match spec_parse str with
+                                      | None => B "not_a_valid_rule"
+                                      | Some _ => B "OK"
+                                      end
                              | None => if lbeq obs (B "ERR") then dash else B "malformed_observation"
                              end;
-                   o_class := dash |}
+                   o_class := match parse s with Ok r => class_of22 r | _ => dash end |}
             end
           else bad_case
       | [] => bad_case
